@@ -71,6 +71,10 @@ var rePatterns = []struct{ pat, hit, miss string }{
 func genC05Case(t *rapid.T) (c *ScalarCase, rule, class string) {
 	rule = rapid.SampledFrom(c05RuleNames).Draw(t, "rule")
 	c, class = genC05CaseFor(t, rule)
+	if (rule == "date" || rule == "datetime") && rapid.Bool().Draw(t, "withZone") {
+		// the date languages know no time zone: the verdict must not depend on the zone the process runs in
+		c.TZ = rapid.SampledFrom(c05Zones).Draw(t, "zone")
+	}
 	return c, rule, class
 }
 
@@ -386,6 +390,9 @@ func TestC05(t *testing.T) {
 		}
 		ev.Class(rule + "/" + class + "/" + verdict)
 		ev.Class("carrier=" + c.Carrier)
+		if c.TZ != "" {
+			ev.Class("local-time-zone=" + c.TZ)
+		}
 		nt := class == "member" || class == "near" || strings.HasPrefix(class, "typed") || class == "list" || rule == "file" || rule == "dir"
 		ev.Case(c.key(), nt, func() interface{} { return c })
 		if msg != "" {
